@@ -4,6 +4,7 @@ package main
 // built-in theory: trichotomy, constants, unsigned values, lemma implications).
 
 import (
+	"go/types"
 	"fmt"
 	"sort"
 	"strings"
@@ -45,6 +46,8 @@ type Term struct {
 	Fields []string
 	// Fun: for a function value, what it denotes (funcval.go)
 	Fun *FuncVal
+	// ST: for a struct literal value, its struct type (a struct-valued field assigned as a whole is written field-wise)
+	ST *types.Struct
 }
 
 func uniq(ss []string) []string {
